@@ -4,15 +4,16 @@
 (define-fun wf-slice ((s Slice)) Bool
   (and (>= (s-arr s) 0) (>= (s-off s) 0) (>= (s-len s) 0) (<= (s-len s) (s-cap s))
        (=> (= (s-arr s) 0) (and (= (s-cap s) 0) (= (s-off s) 0)))))
-(declare-sort Str 0)
+(define-sort Str () Int) ; strings are opaque identities; 0 is the empty string
 (declare-fun str-len (Str) Int)
 (declare-fun str-id (Str) Int)
 (declare-fun str-at (Str Int) Int)
 (declare-fun str-cat (Str Str) Str)
 (declare-fun str-sub (Str Int Int) Str)
 (assert (forall ((s Str)) (! (>= (str-len s) 0) :pattern ((str-len s)))))
-(declare-sort Flt 0)
-(declare-const flt-zero Flt)
+(define-sort Flt () Real) ; floats: every operation is uninterpreted (fresh result)
+(define-fun flt-zero () Flt 0.0)
+(assert (= (str-len 0) 0))
 ; quantifiers over slice elements are stated over absolute row positions, so that
 ; their triggers are plain (select row j) terms without arithmetic
 ; Go's truncated division / remainder
